@@ -348,11 +348,36 @@ Definition mk_flin_ne_reif cs vs k b : fprop := mkfprop (prune_flin_ne_reif cs v
 Definition under_list (w : fview) : list nat := match fv_under w with Some v => [v] | None => [] end.
 
 (* LessThanOrEquals::prune: x.try_set_max(y.max)?; y.try_set_min(x.min)? *)
-Definition prune_fleq (x y : fview) (c : fctx) : option fctx :=
+(* the two setter calls of LessThanOrEquals::prune for every operand pair but (float variable, float constant); also what
+   LessThan::prune calls directly on its successor / predecessor views *)
+Definition prune_fleq_plain (x y : fview) (c : fctx) : option fctx :=
   match fv_set_max x (fv_max y (fst c)) c with
   | None => None
   | Some c1 => fv_set_min y (fv_min x (fst c1)) c1
   end.
+(* is_float_constant / is_float_variable (props/leq.rs) *)
+Definition fv_is_const (w : fview) : bool := match fv_under w with Some _ => false | None => true end.
+Definition fv_float_const (w : fview) (s : fstore) : bool := fv_is_float w s && fv_is_const w.
+Definition fv_float_var (w : fview) (s : fstore) : bool := fv_is_float w s && negb (fv_is_const w).
+(* bound_float_variable_above / _below (props/leq.rs, repair "a float variable is compared with a float constant through its own
+   setters only"): the variable's setter decides; when the constant lies beyond the opposite bound within the setter's
+   tolerance (the setter may then leave the variable as it is) the variable is fixed at that bound *)
+Definition bound_above (x : fview) (k : fval) (c : fctx) : option fctx :=
+  match fv_set_max x k c with
+  | None => None
+  | Some c1 => let mn := fv_min x (fst c1) in if val_lt k mn then fv_set_max x mn c1 else Some c1
+  end.
+Definition bound_below (x : fview) (k : fval) (c : fctx) : option fctx :=
+  match fv_set_min x k c with
+  | None => None
+  | Some c1 => let mx := fv_max x (fst c1) in if val_gt k mx then fv_set_min x mx c1 else Some c1
+  end.
+(* LessThanOrEquals::prune.  prune_fleq_plain is also the code BEFORE that repair for every operand pair (the constant side
+   re-tested exactly: Val::try_set_min / try_set_max) *)
+Definition prune_fleq (x y : fview) (c : fctx) : option fctx :=
+  if fv_float_const y (fst c) && fv_float_var x (fst c) then bound_above x (fv_max y (fst c)) c
+  else if fv_float_const x (fst c) && fv_float_var y (fst c) then bound_below y (fv_min x (fst c)) c
+  else prune_fleq_plain x y c.
 Definition mk_fleq (x y : fview) : fprop := mkfprop (prune_fleq x y) (under_list x ++ under_list y).
 (* LessThan::prune (props/leq.rs, after the repairs "strict comparison of an integer view with a float variable" and
    "... with a float constant"):
@@ -365,29 +390,28 @@ Definition mk_fleq (x y : fview) : fprop := mkfprop (prune_fleq x y) (under_list
    prune_flt_prefix_const the one between the two repairs, kept for strict_int_const_prefix_refuted. *)
 Definition int_below_float_var (x y : fview) (s : fstore) : bool :=
   negb (fv_is_float x s) && fv_is_float y s && (match fv_under y with Some _ => true | None => false end).
-Definition fv_is_const (w : fview) : bool := match fv_under w with Some _ => false | None => true end.
 Definition int_below_float_const (x y : fview) (s : fstore) : bool :=
   negb (fv_is_float x s) && fv_is_float y s && fv_is_const y.
 Definition float_const_below_int (x y : fview) (s : fstore) : bool :=
   fv_is_float x s && fv_is_const x && negb (fv_is_float y s).
 Definition prune_flt_prefix_const (x y : fview) (c : fctx) : option fctx :=
-  if int_below_float_var x y (fst c) then prune_fleq x (FPrev y) c else prune_fleq (FNext x) y c.
+  if int_below_float_var x y (fst c) then prune_fleq_plain x (FPrev y) c else prune_fleq_plain (FNext x) y c.
 Definition prune_flt (x y : fview) (c : fctx) : option fctx :=
-  if int_below_float_var x y (fst c) then prune_fleq x (FPrev y) c
+  if int_below_float_var x y (fst c) then prune_fleq_plain x (FPrev y) c
   else if int_below_float_const x y (fst c) then
     let b := fsub (fceil (as_f (fv_max y (fst c)))) c_one in
     if fge b (f64_of_Z i32_lo) then fv_set_max x (VlI (to_i32 b)) c else None
   else if float_const_below_int x y (fst c) then
     let b := fadd (ffloor (as_f (fv_min x (fst c)))) c_one in
     if fle b (f64_of_Z i32_hi) then fv_set_min y (VlI (to_i32 b)) c else None
-  else prune_fleq (FNext x) y c.
-Definition prune_flt_prefix (x y : fview) (c : fctx) : option fctx := prune_fleq (FNext x) y c.
+  else prune_fleq_plain (FNext x) y c.
+Definition prune_flt_prefix (x y : fview) (c : fctx) : option fctx := prune_fleq_plain (FNext x) y c.
 Definition mk_flt (x y : fview) : fprop := mkfprop (prune_flt x y) (under_list x ++ under_list y).   (* less_than *)
 Definition mk_fgeq (x y : fview) : fprop := mk_fleq y x.               (* greater_than_or_equals *)
 Definition mk_fgt (x y : fview) : fprop := mk_flt y x.                 (* greater_than: y < x *)
 
 (* Eq::prune *)
-Definition prune_feq (x y : fview) (c : fctx) : option fctx :=
+Definition prune_feq_plain (x y : fview) (c : fctx) : option fctx :=
   match fv_set_min x (fv_min y (fst c)) c with
   | None => None
   | Some c1 =>
@@ -400,6 +424,12 @@ Definition prune_feq (x y : fview) (c : fctx) : option fctx :=
       end
     end
   end.
+Definition prune_feq (x y : fview) (c : fctx) : option fctx :=
+  if fv_float_const y (fst c) && fv_float_var x (fst c) then
+    match bound_below x (fv_min y (fst c)) c with None => None | Some c1 => bound_above x (fv_max y (fst c1)) c1 end
+  else if fv_float_const x (fst c) && fv_float_var y (fst c) then
+    match bound_below y (fv_min x (fst c)) c with None => None | Some c1 => bound_above y (fv_max x (fst c1)) c1 end
+  else prune_feq_plain x y c.
 Definition mk_feq (x y : fview) : fprop := mkfprop (prune_feq x y) (under_list x ++ under_list y).
 
 (* ---------------------------------------------------------------- Add / Sub (float and mixed arms) *)
